@@ -21,6 +21,12 @@ accept-text <sig> <$frame-args>                 → ok | …
 sizes <type>                                    → `<size> <align> <k> <off>^k`
 accept-count <n> <tag…>                         → ok iff n = 0   (toolchain diagnostics on generated files)
 
+Navigation sessions (components are values; store entry 0 = the selected variable, every `d` appends one):
+cmd    := `d <parent> <step>` | `r <i>`
+tree <sig> <P|R> <sel> <n> cmd^n                → `<m> | outcome | …`   (one outcome per `r`, as for `resolve`)
+accept-tree <sig> <P|R> <sel> <n> cmd^n => <m> (ok <sym|-> <disp> <base> <basic> <asmtext> | err | panic)^m
+                                                → ok | bad-resolve <j> <verdict>   (each against its OWN path)
+
 Histories of calls on one build.Context (Model/LayoutCtx):
 cls    := gp8|gp16|gp32|gp64|xmm
 regref := `p:<NAME>:<cls>` | `a:<k>`                       (register returned by allocation call k)
@@ -380,8 +386,71 @@ def handleHist : Handler
 
 end Hist
 
+/-! ## Navigation sessions: components as values -/
+section Tree
+
+def tcmdTok : List String → Option (TCmd × List String)
+  | "d" :: p :: rest => do
+    let p ← p.toNat?
+    let (s, rest) ← stepTok rest
+    pure (.derive p s, rest)
+  | "r" :: i :: rest => i.toNat?.map (fun i => (TCmd.resolve i, rest))
+  | _ => none
+
+/-- One recorded outcome of the implementation: `ok sym disp base basic text` | `err` | `panic`. -/
+def toutcomeTok : List String → Option ((Outcome × Option String) × List String)
+  | "err" :: rest => some ((.err, none), rest)
+  | "panic" :: rest => some ((.panic, none), rest)
+  | "ok" :: sym :: disp :: base :: basic :: text :: rest =>
+    (outcomeTok ["ok", sym, disp, base, basic, text]).map (·, rest)
+  | _ => none
+
+def judgeOne (s : Sig) (isRet : Bool) (sel : Sel) (path : Option (List Step)) (o : Outcome × Option String) : String :=
+  match path with
+  | none => "bad-no-such-component"
+  | some p =>
+    let v := acceptResolve s isRet sel p o.1
+    if v != "ok" then v else
+    match o.1, o.2 with
+    | .ok r, some t => if asmText r.addr == t then "ok" else "bad-asm-text want " ++ asmText r.addr
+    | _, _ => "ok"
+
+def firstBadResolve (s : Sig) (isRet : Bool) (sel : Sel) :
+    List (Option (List Step)) → List (Outcome × Option String) → Nat → Option String
+  | [], [], _ => none
+  | p :: ps, o :: os, j =>
+    let v := judgeOne s isRet sel p o
+    if v == "ok" then firstBadResolve s isRet sel ps os (j + 1) else some s!"bad-resolve {j} {v}"
+  | _, _, j => some s!"bad-number-of-outcomes {j}"
+
+def handleTree : Handler
+  | "tree" :: rest => do
+    let (s, rest) ← sigTok rest
+    let (isRet, rest) ← retTok rest
+    let (sel, rest) ← selTok rest
+    let (cmds, _) ← listOf tcmdTok rest
+    let st := runTree ((s.tuple isRet).select sel) cmds
+    some (" | ".intercalate (toString st.out.length :: st.out.map (fun
+      | .ok (a, b) => renderResolved a b
+      | .error _ => "err")))
+  | "accept-tree" :: rest => do
+    let (s, rest) ← sigTok rest
+    let (isRet, rest) ← retTok rest
+    let (sel, rest) ← selTok rest
+    let (cmds, rest) ← listOf tcmdTok rest
+    match rest with
+    | "=>" :: out =>
+      let (os, _) ← listOf toutcomeTok out
+      -- every Resolve of the session against the specification for the resolved component's OWN path
+      some ((firstBadResolve s isRet sel (resolvePaths cmds) os 0).getD "ok")
+    | _ => none
+  | _ => none
+
+end Tree
+
 def handlers : List (String × Handler) :=
   ["resolve", "accept-resolve", "argsize", "accept-argsize", "accept-text", "sizes", "accept-count"].map (·, handle)
     ++ ["ctxhist", "accept-ctxhist", "accept-hresolve"].map (·, handleHist)
+    ++ ["tree", "accept-tree"].map (·, handleTree)
 
 end Avo.Drv.C07
